@@ -69,6 +69,7 @@ type replicaFam struct {
 	log        []func() string
 	svc        hotstuffpb.ConsensusServer
 	nwire      int
+	sendFail   bool // the sender knows no replica: Vote / NewView answer an error
 }
 
 func init() {
@@ -84,12 +85,19 @@ func init() {
 type recSender struct{ f *replicaFam }
 
 func (s recSender) NewView(id hotstuff.ID, si hotstuff.SyncInfo) error {
+	if s.f.sendFail {
+		return fmt.Errorf("replica does not exist (id=%d)", id)
+	}
 	s.f.sent = append(s.f.sent, sentNewView{id, si})
 	s.f.log = append(s.f.log, func() string { return fmt.Sprintf("newview(to=%d,%s)", id, s.f.dSI(si)) })
 	return nil
 }
 
 func (s recSender) Vote(id hotstuff.ID, pc hotstuff.PartialCert) error {
+	if s.f.sendFail {
+		// what GorumsSender.Vote answers for an id it has no connection to
+		return fmt.Errorf("replica does not exist (id=%d)", id)
+	}
 	s.f.sigs[s.f.pfx+".vote."+s.f.hashName(pc.BlockHash())] = pc.Signature()
 	s.f.sent = append(s.f.sent, sentVote{id, pc})
 	s.f.log = append(s.f.log, func() string {
@@ -217,6 +225,7 @@ func (f *replicaFam) build(r int, rulesName, leader string) string {
 	cfg := f.env.cfgs[r-1]
 	logger := logging.New("r")
 	f.el = eventloop.New(logger, 1000)
+	f.sendFail = false
 	snd := recSender{f}
 	f.chain = blockchain.New(f.el, logger, snd)
 	auth := cert.NewAuthority(cfg, f.chain, signLogger{f.env.bases[r-1], f})
@@ -348,6 +357,12 @@ func (f *replicaFam) op(a []string) (out string) {
 		f.startLeader()
 		f.run()
 		return f.flush()
+	case "sender-fails":
+		if len(a) != 2 || (a[1] != "on" && a[1] != "off") {
+			return "bad-op"
+		}
+		f.sendFail = a[1] == "on"
+		return "ok"
 	case "fetchable":
 		if len(a) != 3 {
 			return "bad-op"
